@@ -74,6 +74,9 @@ impl Prop for C07 {
             v.push(format!("fixings:{}", f));
         }
         v.push("fed-vs-nyc".into());
+        for c in ["restored:json", "restored:pickle-state", "via-NamedCal"] {
+            v.push(c.to_string());
+        }
         v
     }
     fn min_evaluations(&self, _tier: Tier) -> u64 {
@@ -288,8 +291,53 @@ impl Prop for C07 {
                 ctx.eval(1);
                 ctx.asserted(1);
                 ctx.class("name-resolves");
-                if get_calendar_by_name(name).is_err() {
-                    ctx.violation(&format!("C07|name-unresolved|{}", name), json!({"name": name}));
+                let cal = match get_calendar_by_name(name) {
+                    Ok(c) => c,
+                    Err(_) => {
+                        ctx.violation(&format!("C07|name-unresolved|{}", name), json!({"name": name}));
+                        return;
+                    }
+                };
+                // a built-in calendar that has been saved and loaded again (JSON, pickle state) still reports the
+                // same holidays on every date 1970-2200; so does the calendar reached through a NamedCal
+                let restored: Vec<(&str, Option<rateslib::calendars::Cal>)> = vec![
+                    ("json", serde_json::to_string(&cal).ok().and_then(|j| serde_json::from_str(&j).ok())),
+                    ("pickle-state", bincode::serialize(&cal).ok().and_then(|b| bincode::deserialize(&b).ok())),
+                ];
+                let named = rateslib::calendars::NamedCal::try_new(name).ok();
+                for (how, r) in restored.iter() {
+                    ctx.class(&format!("restored:{}", how));
+                    let r = match r {
+                        Some(r) => r,
+                        None => {
+                            ctx.violation(&format!("C07|restored|{}|error", how), json!({"name": name}));
+                            return;
+                        }
+                    };
+                    for z in z_lo..=z_hi {
+                        let dt = to_ndt(z);
+                        ctx.eval(1);
+                        if r.is_holiday(&dt) != cal.is_holiday(&dt) || r.is_weekday(&dt) != cal.is_weekday(&dt) {
+                            ctx.violation(&format!("C07|restored|{}|holidays-differ", how), json!({"name": name, "date": fmt_z(z), "fresh_is_holiday": cal.is_holiday(&dt), "restored_is_holiday": r.is_holiday(&dt)}));
+                            return;
+                        }
+                    }
+                    ctx.asserted((z_hi - z_lo + 1) as u64);
+                }
+                match named {
+                    Some(nc) => {
+                        ctx.class("via-NamedCal");
+                        for z in z_lo..=z_hi {
+                            let dt = to_ndt(z);
+                            ctx.eval(1);
+                            if nc.is_holiday(&dt) != cal.is_holiday(&dt) || nc.is_weekday(&dt) != cal.is_weekday(&dt) {
+                                ctx.violation("C07|via-NamedCal|holidays-differ", json!({"name": name, "date": fmt_z(z)}));
+                                return;
+                            }
+                        }
+                        ctx.asserted((z_hi - z_lo + 1) as u64);
+                    }
+                    None => ctx.violation(&format!("C07|name-unresolved-as-NamedCal|{}", name), json!({"name": name})),
                 }
             }
             4 => {
